@@ -211,7 +211,14 @@ def compare(it, x, y):
         if all(isinstance(c, int) for c in xs + ys):
             bx = ''.join(map(chr, xs)).encode('utf-8', 'surrogatepass'); by = ''.join(map(chr, ys)).encode('utf-8', 'surrogatepass')
             return (bx > by) - (bx < by)
-        raise Unsupported('ordering of symbolic strings')
+        # byte-wise order of UTF-8 equals code-point order: decide position by position
+        for p_, q_ in zip(xs, ys):
+            if isinstance(p_, int) and isinstance(q_, int):
+                if p_ != q_: return (p_ > q_) - (p_ < q_)
+                continue
+            if truth(it, do_binop('Lt', p_, q_, 'char')): return -1
+            if not truth(it, do_binop('Eq', p_, q_, 'char')): return 1
+        return (len(xs) > len(ys)) - (len(xs) < len(ys))
     if isinstance(x, (Agg, Enum)) and not is_std_value(x):
         r = it.call_named('<%s as Ord>::cmp' % x.ty, [Ref([x], 0), Ref([y], 0)], [None, None], None)
         return {'Less': -1, 'Equal': 0, 'Greater': 1}[r.variant]
